@@ -816,7 +816,7 @@ def check(run):
     base = int(os.environ["C03_BASE"]) if "C03_BASE" in os.environ else None   # calibration: seeds base, base+1, …
     if run.tier == "quick":
         specs += make_specs(run, int(os.environ.get("C03_N", "100")), langs=langs, cap=40, base=base)
-        run_all(run, specs, budget_s=int(os.environ.get("C03_BUDGET", "115")))
+        run_all(run, specs, budget_s=int(os.environ.get("C03_BUDGET", "90")))
     else:
         specs += make_specs(run, int(os.environ.get("C03_N", "4000")), langs=langs, cap=60)
         run_all(run, specs, budget_s=int(os.environ.get("C03_BUDGET", "1300")))
